@@ -155,6 +155,7 @@ def evalPy (I : Interp) (env : VEnv) : PyExpr → Option Val
   | .attr p a => pyAttr I p a
   | .attrDeep => none
   | .boolop isAnd vals => evalPyBool I env isAnd vals
+  | .callKw => none                      -- keyword arguments: meaning not modelled
   | .other => none
 def evalPyList (I : Interp) (env : VEnv) : List PyExpr → Option (List Val)
   | [] => some []
@@ -322,6 +323,7 @@ def knownCall (f : String) (n : Nat) : Bool :=
 /-- the root node is something MathML cannot say (or says differently): the exporter has to refuse it -/
 def unsupportedNode : PyExpr → Bool
   | .other => true
+  | .callKw => true                               -- MathML has no keyword arguments
   | .attrDeep => true
   | .boolop _ _ => true                           -- `a and b` is an operand of the expression, not a truth value
   | .const .other => true
@@ -355,5 +357,12 @@ def stmtUnsupported : PyStmt → Bool
   | .ret (some e) => hasUnsupported e
   | .ret none => true
   | .other => true
+
+/-- a function body the exporter has to refuse: it does not begin with `return <expression>` (no other
+    statement has a MathML counterpart; what follows the first `return` is never reached), or the returned
+    expression contains an unsupported construct -/
+def bodyUnsupported : List PyStmt → Bool
+  | [] => true
+  | s :: _ => stmtUnsupported s
 
 end Mxl.C08
